@@ -27,7 +27,7 @@ def c05(tier):
 
     return props.cek_property(
         'C05', tier, plan, relevant, extra_check=steps_check, extra_cov=lambda sessions, ends: {'instruction_traces': vcov},
-        rule='sessions of 1-3 blocks drawn from 26 parametrised continuation templates (the first block of session i is template i mod 26) (harness/src/gen_cont.rs): escape from '
+        rule='sessions of 1-3 blocks drawn from 27 parametrised continuation templates (the first block of session i is template i mod 27) (harness/src/gen_cont.rs): escape from '
         'for-each/map/deep recursion, re-entry from later top-level forms with counters, operand positions, '
         'continuations stored in globals/vectors/pairs/closures, nested extents, generators, coroutines, re-entry into '
         'a define; each run in a fresh VM and after unrelated definitions')
